@@ -814,6 +814,11 @@ class PathExec:
 
     # ---- rvalues
     def rvalue(s, fr, rv):
+        fm = re.match(r'^(?:const )?(.+?) as (?:unsafe )?(?:extern "[^"]*" )?fn\(.*\) \(PointerCoercion\((?:ReifyFnPointer|ClosureFnPointer).*\)\)$', rv, re.S)
+        if fm:          # a function item / capture-less closure coerced to a function pointer
+            op = fm.group(1).strip()
+            if op.startswith(('copy ', 'move ')): return s.operand(fr, op)
+            return s.fn_value(op) if hasattr(s, 'fn_value') else FnItem(strip_generics(op))
         if rv.startswith(('copy ', 'move ', 'const ', 'no_retag ')):
             cm = re.match(r'^(.*) as ([^()]+?) \((\w+(?:\([\w, ]*\))?)\)$', rv, re.S)
             if cm and balanced(cm.group(1)): return s.cast(s.operand(fr, cm.group(1)), cm.group(2).strip(), cm.group(3))
